@@ -1,15 +1,17 @@
 /-
 C15 — Drift is reported for drift-relevant changes and never self-inflicted.
 
-Property theorems only (lemmas: `Karp/Proofs/HashLemmas.lean`, `Karp/Proofs/DriftLemmas.lean`).
+Property theorems only (lemmas: `Karp/Proofs/HashLemmas.lean`, `Karp/Proofs/DriftLemmas.lean`, `Karp/Proofs/LaunchLemmas.lean`).
 Model: `Karp/Model/Hash.lean` (`NodePool.Hash()` = the hashstructure walk over `v1.NodeClaimTemplate`, field table
 regenerated from the Go source), `Karp/Model/Drift.lean` (`areStaticFieldsDrifted`, `areRequirementsDrifted`,
-`instanceTypeNotFound`, `isDrifted`, `Drift.Reconcile`, the nodepool/hash controller, `PopulateNodeClaimDetails`).
+`instanceTypeNotFound`, `isDrifted`, `Drift.Reconcile`, the nodepool/hash controller, `PopulateNodeClaimDetails`, the launch
+under failing API writes).
 Spec: `Karp/Spec/DriftSpec.lean` (which NodePools must share a hash; when a NodeClaim must / may be Drifted, with the
 Kubernetes node-selector semantics).
 -/
 import Karp.Proofs.HashLemmas
 import Karp.Proofs.DriftLemmas
+import Karp.Proofs.LaunchLemmas
 import Karp.Model.Template
 
 namespace Karp.C15
@@ -83,6 +85,25 @@ theorem fact_reasons :
     Karp.Gen.C15Drift.reasonInstanceTypeNotFound ≠ "" ∧
     Karp.Gen.C15Drift.reasonNodePoolDrifted ≠ Karp.Gen.C15Drift.reasonRequirementsDrifted ∧
     Karp.Gen.C15Drift.conditionDrifted = "Drifted" ∧ Karp.Gen.C15Drift.conditionLaunched = "Launched" := by decide
+
+/-- the instance-type check asks `it.Offerings.HasCompatible(reqs)` on the full offering list: no `Available()` (or
+    other) filter in between — what `Karp.Drift.instanceTypeNotFound` models by not reading `Offer.available` -/
+theorem fact_instance_type_check_reads_all_offerings :
+    Karp.Gen.C15Drift.instanceTypeNotFoundOfferingCalls = ["HasCompatible"] := by decide
+
+/-- `Launch.Reconcile`: the cached answer or a real launch (`launchNodeClaim`, which only calls `Create` and merges
+    nothing itself), then — after the two paths have joined — the answer is cached, merged into the NodeClaim
+    (`PopulateNodeClaimDetails`) and only then `Launched` is set: what `Karp.Drift.launchReconcile` models -/
+theorem fact_launch_merges_on_both_paths :
+    Karp.Gen.C15Drift.launchReconcileCalls =
+      ["cache.Get", "launchNodeClaim", "cache.SetDefault", "PopulateNodeClaimDetails", "SetTrue"] ∧
+    Karp.Gen.C15Drift.launchNodeClaimCalls = ["Create"] := by decide
+
+/-- the API writes of the lifecycle controller's reconcile, in order: the finalizer patch, (the sub-reconcilers), the
+    metadata patch, the status patch — the numbering of `failAt` in `Karp.Drift.launchReconcile` -/
+theorem fact_lifecycle_write_order :
+    Karp.Gen.C15Drift.lifecycleReconcileCalls =
+      ["AddFinalizer", "kubeClient.Patch", "reconciler.Reconcile", "kubeClient.Patch", "kubeClient.Status().Patch"] := by decide
 
 variable {U : Type}
 
@@ -546,6 +567,60 @@ theorem C15_launch_labels_satisfy_partial (sels : List Sel) (templateLabels reso
           have := hdefined s hs hm
           simp [h1, h2, h3] at this
 
+/-! ## The launch under failing API writes, and capacity that sells out -/
+
+/-- **C15_launch_creates_once** — along every history of lifecycle reconciles of a fresh NodeClaim, whichever API writes
+    fail (any write of any reconcile, any number of times), `CloudProvider.Create` is called at most once: a launch whose
+    write-back failed is replayed from the cache, never repeated. -/
+theorem C15_launch_creates_once (l0 p : Karp.Drift.Labels) (fs : List Nat) :
+    (launchFinal { labels := l0 } p fs).creates ≤ 1 := by
+  have h := launchInv_final l0 p fs _ (launchInv_init l0 p)
+  rcases h.creates with ⟨h0, _⟩ | ⟨h1, _⟩
+  · rw [h0]; exact Nat.zero_le 1
+  · rw [h1]; exact Nat.le_refl 1
+
+/-- **C15_launch_replay_keeps_launch_choice** (invariant over ALL histories of reconciles and write failures) — in every
+    state in which the stored NodeClaim is `Launched`, it carries, key by key, exactly the labels of
+    `PopulateNodeClaimDetails` applied to the labels it was created with and the provider's answer: its own labels, and
+    below them the provider's (instance type, zone, capacity type, …) — also when the metadata or the status patch
+    failed first and the launch was replayed from the cache, once or repeatedly. -/
+theorem C15_launch_replay_keeps_launch_choice (l0 p : Karp.Drift.Labels) (fs : List Nat) :
+    ∀ r ∈ launchRun { labels := l0 } p fs, r.1.launched = true →
+      ∀ k, r.1.labels.lookup k = (populateLabels l0 p).lookup k :=
+  fun r hr hl => (launchInv_run l0 p fs _ (launchInv_init l0 p) r hr).launched hl
+
+/-- … hence the drift verdicts on it are those of the undisturbed launch: whatever the NodePool's requirements, the
+    labels of a NodeClaim launched through any history of write failures satisfy them exactly when the labels of the
+    undisturbed launch do (to which `C15_launch_labels_satisfy_partial` applies). -/
+theorem C15_launch_replay_labels_satisfy (sels : List Sel) (l0 p : Karp.Drift.Labels) (fs : List Nat)
+    (hl : (launchFinal { labels := l0 } p fs).launched = true) :
+    labelsSatisfy sels (launchFinal { labels := l0 } p fs).labels = labelsSatisfy sels (populateLabels l0 p) := by
+  have h := (launchInv_final l0 p fs _ (launchInv_init l0 p)).launched hl
+  unfold labelsSatisfy
+  apply List.all_congr rfl
+  intro s
+  rw [h s.key]
+
+/-- a reconcile none of whose writes fails leaves the NodeClaim Launched, from every state (cache filled or not): the
+    histories of the two theorems above do reach `Launched` -/
+theorem C15_launch_clean_reconcile_launches (s : LaunchSt) (p : Karp.Drift.Labels) :
+    (launchReconcile s p 0).1.launched = true ∧ (launchReconcile s p 0).2 = false :=
+  launch_clean_reconcile s p
+
+/-- **C15_sold_out_offering_is_still_offered** — `instanceTypeNotFound`, and with it the whole drift decision
+    `isDrifted`, does not depend on which of the listed offerings can currently be launched into: two catalogues that list
+    the same instance types and offerings and differ only in availability give the same verdict, for every NodeClaim.
+    (A NodeClaim whose launch offering is sold out is not drifted by that; an offering that is REMOVED is reported.) -/
+theorem C15_sold_out_offering_is_still_offered (s : St) (its' : List ITD) (c : Claim)
+    (h : listed s.prov.its = listed its') :
+    instanceTypeNotFound s.prov.its c.labels s.wellKnown s.reservedLabels =
+      instanceTypeNotFound its' c.labels s.wellKnown s.reservedLabels ∧
+    isDrifted { s with prov := { s.prov with its := its' } } c = isDrifted s c := by
+  have e := instanceTypeNotFound_listed s.prov.its its' h c.labels s.wellKnown s.reservedLabels
+  refine ⟨e, ?_⟩
+  unfold isDrifted
+  simp only [e]
+
 /-! ## NodeClaims created in mid-history (the provisioner runs at any point relative to the hash controller) -/
 
 /-- **C15_create_stamps_template** — a NodeClaim the provisioner creates from the stored NodePool carries the hash of the
@@ -616,7 +691,7 @@ def wStale : St :=
   { pool := { name := "pool-a", pool := { template := wStaleTemplate },
               ann := { hash := some ({ template := { wStaleTemplate with labels := some [("team", "a")] } } : Pool).hashString,
                        version := some currentVersion } },
-    claims := [], prov := { its := [{ name := "it-a", offerings := [[]] }] },
+    claims := [], prov := { its := [{ name := "it-a", offerings := [{ reqs := [] }] }] },
     nodeClass := ("karpenter.test.sh", "TestNodeClass") }
 def wProviderLabels : Karp.Drift.Labels := [("node.kubernetes.io/instance-type", "it-a"), ("topology.kubernetes.io/zone", "z1")]
 /-- an outcome of the `Any()` calls: a value for the bounded custom key, and the single values of the label keys -/
@@ -702,7 +777,7 @@ def wState : St :=
   { pool := { name := "pool-a", pool := wPool, ann := { hash := some wPool.hashString, version := some currentVersion } },
     claims := [{ name := "nc-0", labels := wGood ++ [("node.kubernetes.io/instance-type", "it-a")],
                  ann := { hash := some wPool.hashString, version := some currentVersion } }],
-    prov := { its := [{ name := "it-a", offerings := [[]] }] } }
+    prov := { its := [{ name := "it-a", offerings := [{ reqs := [] }] }] } }
 
 example : Settled wState :=
   ⟨rfl, rfl, by
@@ -710,6 +785,20 @@ example : Settled wState :=
     simp only [wState, List.mem_singleton] at hc
     subst hc
     exact ⟨rfl, rfl, by rfl, by decide⟩⟩
+
+/-- the launch theorems on a concrete history: the metadata patch fails, then the status patch fails, then an
+    undisturbed reconcile — `Create` was called once, the NodeClaim is Launched and carries zone and instance type -/
+example : (launchRun { labels := wGood } wProviderLabels [2, 2, 0]).map (fun r => (r.1.launched, r.1.creates, r.2)) =
+    [(false, 1, true), (false, 1, true), (true, 1, false)] ∧
+    (launchFinal { labels := wGood } wProviderLabels [2, 2, 0]).labels.lookup "topology.kubernetes.io/zone" = some "z1" := by decide
+
+/-- the hypothesis of `C15_sold_out_offering_is_still_offered`: the same catalogue with the only offering sold out; the
+    NodeClaim's instance type is found in both — and not once the offering is removed -/
+example : listed wState.prov.its = listed [{ name := "it-a", offerings := [{ reqs := [], available := false }] }] ∧
+    instanceTypeNotFound [{ name := "it-a", offerings := [{ reqs := [], available := false }] }]
+      (wGood ++ [("node.kubernetes.io/instance-type", "it-a")]) [] [] = false ∧
+    instanceTypeNotFound [{ name := "it-a", offerings := [] }]
+      (wGood ++ [("node.kubernetes.io/instance-type", "it-a")]) [] [] = true := by decide
 
 /-- the migration theorem's hypotheses: an un-drifted NodeClaim with an old hash version -/
 example : staticDrifted { hash := some "new", version := some currentVersion }
